@@ -545,7 +545,8 @@ var c16IllDefs = []string{
 // E from { x, y, [x], [y], [[x]], [[y]], (x, y) }.  Most are ill-typed (a type containing itself, directly
 // or through the other variable); fc must say so, not die.
 func c16CyclicDriver() func(c *explore.Chooser) string {
-	es := []string{"x", "y", "[x]", "[y]", "[[x]]", "[[y]]", "(x, y)"}
+	// (x, x) and ((x, x), (x, x)): relations that DOUBLE every resolver round (genuine defect 3d7dccf: out of memory)
+	es := []string{"x", "y", "[x]", "[y]", "[[x]]", "[[y]]", "(x, y)", "(x, x)", "((x, x), (x, x))"}
 	return func(c *explore.Chooser) string {
 		pick := func() string { return es[c.Choose(len(es))] }
 		var sb strings.Builder
@@ -802,6 +803,21 @@ func c16Scale(c *core.Ctx, fc string, sc *impl.Scratch) {
 			list = append(list, job{fmt.Sprintf("slice literal of %d bytes on one line", n), pre + "let payload () = [" + rep("1; ", n) + "1]\n" + post, []string{"func before", "func payload", "func after"}, "long-line"})
 		}
 	}
+	// a type whose SIZE doubles with every let (a1 = (a0, a0), a2 = (a1, a1) ...): 2^n leaves.  Exponential in
+	// any Hindley-Milner system; fc must survive the sizes that fit and say so beyond (recorded finding from 20 on)
+	pairs := []int{5, 10, 15}
+	if c.Thorough() {
+		pairs = append(pairs, 24)
+	}
+	for _, n := range pairs {
+		var sb strings.Builder
+		sb.WriteString("package main\n\nlet f (a0:int) =\n")
+		for i := 0; i < n; i++ {
+			fmt.Fprintf(&sb, "  let a%d = (a%d, a%d)\n", i+1, i, i)
+		}
+		fmt.Fprintf(&sb, "  a%d\n", n)
+		list = append(list, job{fmt.Sprintf("type-size: %d lets that double the size of a tuple type", n), sb.String(), nil, "deep-nesting"})
+	}
 	// runs of blank lines inside a function body and between definitions (the tokenizer skips line ends recursively)
 	blanks := []int{1000, 100000, 300000}
 	if c.Thorough() {
@@ -888,6 +904,9 @@ func c16Scale(c *core.Ctx, fc string, sc *impl.Scratch) {
 					sig = "C16:runtime-fatal:" + j.class + ":" + strings.TrimSuffix(strings.Fields(j.name)[0], ":")
 					if strings.HasPrefix(j.name, "blank lines") {
 						sig = "C16:runtime-fatal:deep-nesting:blank-lines"
+					}
+					if strings.HasPrefix(j.name, "type-size") {
+						sig = "C16:runtime-fatal:exponential-type-size"
 					}
 				}
 				c.Violation(sig, fmt.Sprintf("fc on %s: %s %s", j.name, o.class, o.detail),
